@@ -11,7 +11,7 @@ DOM = {
                   width=['', '6'], group=['', ',', '_'], prec=['', '.0', '.2'],
                   typ=['', 'b', 'c', 'd', 'e', 'E', 'f', 'F', 'g', 'G', 'n', 'o', 's', 'x', 'X', '%', 'N', 'y']),
     'thorough': dict(fill=['', 'x', '0', '<', 'é'], align=['', '<', '>', '=', '^'], sign=['', '+', '-', ' '], z=[''], alt=['', '#'],
-                     zero=['', '0'], width=['', '1', '6', '12'], group=['', ',', '_'], prec=['', '.0', '.2', '.10'],
+                     zero=['', '0'], width=['', '1', '6', '12', '25'], group=['', ',', '_'], prec=['', '.0', '.1', '.2', '.10'],
                      typ=['', 'b', 'c', 'd', 'e', 'E', 'f', 'F', 'g', 'G', 'n', 'o', 's', 'x', 'X', '%', 'N', 'y']),
 }
 ORDER = ['fill', 'align', 'sign', 'z', 'alt', 'zero', 'width', 'group', 'prec', 'typ']
@@ -124,7 +124,7 @@ def run(tier, seed):
     jobs = [('prod', ch) for ch in X.chunks(spec_product(tier), 1500)]
     nspecs = sum(len(j[1]) for j in jobs)
     jobs.append(('sprod',))
-    n = 3 if tier == 'quick' else 4
+    n = 3 if tier == 'quick' else 5
     jobs += [('mal', MAL_SIGMA, n, s) for s in X.prefix_shards(MAL_SIGMA, n, 1 if tier == 'quick' else 2)]
     total = C.Result()
     for r in C.pmap(run_job, jobs):
